@@ -130,7 +130,7 @@ impl<'r> Gen<'r> {
     }
 }
 
-pub trait Value: Clone + 'static {
+pub trait Value: Clone + Send + Sync + 'static {
     fn gen(g: &mut Gen) -> Self;
     /// Bit-exact structural equality.
     fn beq(&self, o: &Self) -> bool;
